@@ -33,6 +33,15 @@
                            — the SUCCESSOR fiber performs `*loc := v` in do_maintenance
     clear_or_wait(loc):    loop { p := xchg(loc, 0); if p ≠ 0 return p; yield }
 
+  NULL result pointer (`fiber_join(g, NULL)`, `fiber_tryjoin(g, NULL)`; events `callN` / `retN`,
+  flag `nul a` for the call in flight): every `if (result) *result = …;` is skipped, i.e.
+    joiner first  : after the wake-up NO load of self.result, but still `self.result := 0`
+    finisher first: NO load of g.result, straight into clear_or_wait(&g.join_info)
+  The program counters of such a call carry, as a ghost, the value the call would have delivered
+  (the content of the caller's hand-over slot before it is cleared / g.result at the exchange);
+  on a successful `retN` that ghost value is recorded in `succ g` like a delivered one, so every
+  theorem about `succ` speaks about NULL-result calls too.
+
   The model accepts what the code does, including the histories in which the protocol goes
   wrong (see Props/C04.lean); those are recognised by three ghost flags per target that are
   set at the exchange that opens the window:
@@ -87,6 +96,8 @@ inductive Pc
 inductive Ev
   | call (a : Nat) (op : Op) (g : Nat)
   | ret (a : Nat) (op : Op) (g : Nat) (ok : Bool) (v : Nat)
+  | callN (a : Nat) (op : Op) (g : Nat)          -- join / tryjoin with a NULL result pointer
+  | retN (a : Nat) (op : Op) (g : Nat) (ok : Bool)   -- … returns (no value is observed)
   | fnRet (f v : Nat)                          -- f's run_function returned v (ghost, from the harness note)
   | ldDet (a g v : Nat)
   | xchgDet (a g old new : Nat)
@@ -129,6 +140,8 @@ structure St where
   first : Nat → Option Nat
   /-- ghost: the client whose exchange found WAIT_FOR_JOINER (it takes the finished fiber) -/
   taker : Nat → Option Nat
+  /-- the call a has in flight was made with a NULL result pointer -/
+  nul : Nat → Bool
 
 def init (isTarget : Nat → Bool) : St :=
   { det := fun f => if isTarget f then NONE else DET, ji := fun _ => 0, res := fun _ => 0,
@@ -136,7 +149,7 @@ def init (isTarget : Nat → Bool) : St :=
     detX := fun f => !isTarget f, claimed := fun _ => false, destroyed := fun _ => false,
     finTook := fun _ => false, tDetach := fun _ => false, tThird := fun _ => false,
     tOver := fun _ => false, late := fun _ => 0, holder := fun _ => none, first := fun _ => none,
-    taker := fun _ => none }
+    taker := fun _ => none, nul := fun _ => false }
 
 def untainted (s : St) (g : Nat) : Prop :=
   s.tDetach g = false ∧ s.tThird g = false ∧ s.tOver g = false
@@ -155,6 +168,7 @@ def Ev.counted : Ev → Bool
 /-- the fiber whose cell the event accesses -/
 def Ev.cellOf : Ev → Nat
   | .call a _ _ => a | .ret a _ _ _ _ => a | .fnRet f _ => f
+  | .callN a _ _ => a | .retN a _ _ _ => a
   | .ldDet _ g _ => g | .xchgDet _ g _ _ => g | .stRes _ g _ => g
   | .ldRes _ g _ => g | .xchgJi _ g _ => g | .wJi _ g _ => g
   | .wState _ g _ => g | .destroy a _ => a | .touch _ g => g
@@ -162,6 +176,7 @@ def Ev.cellOf : Ev → Nat
 /-- the fiber acting -/
 def Ev.actor : Ev → Nat
   | .call a _ _ => a | .ret a _ _ _ _ => a | .fnRet f _ => f
+  | .callN a _ _ => a | .retN a _ _ _ => a
   | .ldDet a _ _ => a | .xchgDet a _ _ _ => a | .stRes a _ _ => a
   | .ldRes a _ _ => a | .xchgJi a _ _ => a | .wJi a _ _ => a
   | .wState a _ _ => a | .destroy a _ => a | .touch a _ => a
@@ -169,9 +184,21 @@ def Ev.actor : Ev → Nat
 def Ev.who (e : Ev) : Nat × Nat := (e.actor, e.cellOf)
 
 def stepCore (s : St) : Ev → Option St
-  | .call a op g => if s.pc a = .idle then some { s with pc := upd s.pc a (.called op g) } else none
+  | .call a op g =>
+    if s.pc a = .idle then some { s with pc := upd s.pc a (.called op g), nul := upd s.nul a false } else none
+  | .callN a op g =>
+    if s.pc a = .idle ∧ op ≠ .detach then some { s with pc := upd s.pc a (.called op g), nul := upd s.nul a true }
+    else none
+  | .retN a op g ok =>
+    -- the value in the program counter is the ghost of a NULL-result call (see the header)
+    match s.pc a with
+    | .retn op' g' ok' v =>
+      if op' = op ∧ g' = g ∧ ok' = ok ∧ op ≠ .detach ∧ s.nul a = true then
+        some { s with pc := upd s.pc a .idle, succ := if ok then upd s.succ g (v :: s.succ g) else s.succ }
+      else none
+    | _ => none
   | .ret a op g ok v =>
-    if s.pc a = .retn op g ok v then
+    if s.pc a = .retn op g ok v ∧ s.nul a = false then
       if op = .detach then
         some { s with pc := upd s.pc a .idle, detRet := if ok then upd s.detRet g true else s.detRet }
       else
@@ -211,6 +238,12 @@ def stepCore (s : St) : Ev → Option St
       else if old = NONE ∧ op = .join then
         some { s with det := upd s.det g new, pc := upd s.pc a (.jPark0 g), first := upd s.first g (some a) }
       else if old = WFJ then
+        if s.nul a = true then
+          -- NULL result pointer: g.result is not read; ghost value = g.result at this instant
+          some { s with det := upd s.det g new, pc := upd s.pc a (.take op g (s.res g)), claimed := upd s.claimed g true,
+                        taker := upd s.taker g (some a),
+                        tThird := if s.finTook g then upd s.tThird g true else s.tThird }
+        else
         some { s with det := upd s.det g new, pc := upd s.pc a (.take0 op g), claimed := upd s.claimed g true,
                       taker := upd s.taker g (some a),
                       tThird := if s.finTook g then upd s.tThird g true else s.tThird }
@@ -285,13 +318,18 @@ def stepCore (s : St) : Ev → Option St
     match s.pc a with
     | .take0 op t => if g = t then some { s with pc := upd s.pc a (.take op t v) } else none
     | .fGot p => if g = a then some { s with pc := upd s.pc a (.fGotRes p v) } else none
-    | .jWoken t => if g = a then some { s with pc := upd s.pc a (.jGotRes t v) } else none
+    | .jWoken t => if g = a ∧ s.nul a = false then some { s with pc := upd s.pc a (.jGotRes t v) } else none
     | _ => none
   | .stRes a g v =>
     match s.pc a with
     | .fRet v' => if g = a ∧ v = v' then some { s with res := upd s.res g v, pc := upd s.pc a .fStored } else none
     | .fGotRes p v' => if g = p ∧ v = v' then some { s with res := upd s.res g v, pc := upd s.pc a (.fGave p) } else none
     | .jGotRes t v' => if g = a ∧ v = 0 then some { s with res := upd s.res g 0, pc := upd s.pc a (.retn .join t true v') } else none
+    | .jWoken t =>
+      -- NULL result pointer: the slot is cleared without having been read; ghost value = its content
+      if g = a ∧ v = 0 ∧ s.nul a = true then
+        some { s with res := upd s.res g 0, pc := upd s.pc a (.retn .join t true (s.res a)) }
+      else none
     | _ => none
   | .destroy a g =>
     if s.pc g = .fDone ∧ s.destroyed g = false ∧ a ≠ g then some { s with destroyed := upd s.destroyed g true }
@@ -327,14 +365,22 @@ def opOf (s : String) : Option Op :=
   if s = "join" then some .join else if s = "tryjoin" then some .tryjoin
   else if s = "detach" then some .detach else none
 
+/-- the NULL-result variants as named in the harness notes -/
+def opOfN (s : String) : Option Op :=
+  if s = "joinn" then some .join else if s = "tryjoinn" then some .tryjoin else none
+
 /-- targets are numbered from fiber id 16 -/
 def tid (i : String) : Option Nat := i.toNat?.map (· + 16)
 
 def ofRaw (r : RawEv) : Option (Option Ev) :=
   let a := r.fiber
   match r.kind, r.args with
-  | "note", ["call", op, i] => do let o ← opOf op; let g ← tid i; pure (some (.call a o g))
+  | "note", ["call", op, i] =>
+    match opOfN op with
+    | some o => do let g ← tid i; pure (some (.callN a o g))
+    | none => do let o ← opOf op; let g ← tid i; pure (some (.call a o g))
   | "note", ["ret", "detach", i, rc] => do let g ← tid i; pure (some (.ret a .detach g (rc = "1") 0))
+  | "note", ["ret", op, i, rc] => do let o ← opOfN op; let g ← tid i; pure (some (.retN a o g (rc = "1")))
   | "note", ["ret", op, i, rc, v] => do
       let o ← opOf op; let g ← tid i; let v ← v.toNat?; pure (some (.ret a o g (rc = "1") v))
   | "note", ["target", _, "returns", v] => v.toNat?.map (fun v => some (.fnRet a v))
@@ -420,6 +466,8 @@ def opName : Op → String
 def evName : Ev → String
   | .call a op g => s!"call {opName op} F{g} by F{a}"
   | .ret a op g ok v => s!"ret {opName op} F{g} by F{a} ok={ok} value={v}"
+  | .callN a op g => s!"call {opName op} F{g} (NULL result pointer) by F{a}"
+  | .retN a op g ok => s!"ret {opName op} F{g} (NULL result pointer) by F{a} ok={ok}"
   | .fnRet f v => s!"function of F{f} returns {v}"
   | .ldDet a g v => s!"F{a} loads F{g}.detach_state = {v}"
   | .xchgDet a g o n => s!"F{a} exchanges F{g}.detach_state {o} -> {n}"
@@ -430,6 +478,31 @@ def evName : Ev → String
   | .wState a g v => s!"F{a} writes F{g}.state := {v}"
   | .destroy a g => s!"F{a} destroys F{g}"
   | .touch a g => s!"F{a} touches / switches to F{g}"
+
+/-- a join / tryjoin / detach call returns; `v = none`: the call had a NULL result pointer, no
+    value was observed (it still counts as a success for every other clause) -/
+def monRet (m : Mon) (a : Nat) (op : Op) (g : Nat) (ok : Bool) (v : Option Nat) : Mon :=
+  let inv := m.invalid.contains (a, g)
+  let m := { m with open_ := m.open_.filter (fun c => !(c.1 = a ∧ c.2.2.1 = g)),
+                    invalid := m.invalid.filter (· ≠ (a, g)) }
+  let vs := match v with | some v => s!" value {v}" | none => " (NULL result pointer)"
+  match op, ok with
+  | .detach, true => { m with detRet := upd m.detRet g true, retired := upd m.retired g true }
+  | .detach, false => { m with retired := upd m.retired g true }
+  | _, false =>
+    match v with
+    | some v => if v ≠ 0 then m.flag g "failed-with-value" s!"{opName op} by F{a} failed but delivered {v}" else m
+    | none => m
+  | _, true =>
+    let m := if inv then m.flag g "success-on-destroyed" s!"{opName op} by F{a} started after the destruction and returned SUCCESS" else m
+    let m :=
+      match m.retval g, v with
+      | none, _ => m.flag g "early-success" s!"{opName op} by F{a} returned SUCCESS{vs} before the target's function returned"
+      | some w, some v => if v ≠ w then m.flag g "wrong-value" s!"{opName op} by F{a} returned SUCCESS value {v}, the target returned {w}" else m
+      | some _, none => m
+    let m := if m.succ g != 0 then m.flag g "double-success" s!"{opName op} by F{a} is success number {m.succ g + 1}" else m
+    let m := if m.detRet g then m.flag g "success-after-detach" s!"{opName op} by F{a} succeeded after a detach had returned" else m
+    { m with succ := upd m.succ g (m.succ g + 1), retired := upd m.retired g true }
 
 def monStep (isTarget : Nat → Bool) (m : Mon) (e : Ev) : Mon :=
   let (a, g) := e.who
@@ -464,26 +537,11 @@ def monStep (isTarget : Nat → Bool) (m : Mon) (e : Ev) : Mon :=
       let m := if isTarget g ∧ m.destroyed g ∧ !m.invalid.contains (a, g) then m.flag g "use-after-destroy" (evName e) else m
       if a ≠ g ∧ isTarget a ∧ m.destroyed a then m.flag a "use-after-destroy" ("the destroyed fiber runs: " ++ evName e) else m
   match e with
-  | .call a op g =>
+  | .call a op g | .callN a op g =>
     let m := if m.retired g then m.flag g "contract" s!"harness issued {opName op} by F{a} on a retired target" else m
     { m with open_ := (a, op, g, false) :: m.open_ }
-  | .ret a op g ok v =>
-    let inv := m.invalid.contains (a, g)
-    let m := { m with open_ := m.open_.filter (fun c => !(c.1 = a ∧ c.2.2.1 = g)),
-                      invalid := m.invalid.filter (· ≠ (a, g)) }
-    match op, ok with
-    | .detach, true => { m with detRet := upd m.detRet g true, retired := upd m.retired g true }
-    | .detach, false => { m with retired := upd m.retired g true }
-    | _, false => if v ≠ 0 then m.flag g "failed-with-value" s!"{opName op} by F{a} failed but delivered {v}" else m
-    | _, true =>
-      let m := if inv then m.flag g "success-on-destroyed" s!"{opName op} by F{a} started after the destruction and returned SUCCESS" else m
-      let m :=
-        match m.retval g with
-        | none => m.flag g "early-success" s!"{opName op} by F{a} returned SUCCESS value {v} before the target's function returned"
-        | some w => if v ≠ w then m.flag g "wrong-value" s!"{opName op} by F{a} returned SUCCESS value {v}, the target returned {w}" else m
-      let m := if m.succ g != 0 then m.flag g "double-success" s!"{opName op} by F{a} is success number {m.succ g + 1}" else m
-      let m := if m.detRet g then m.flag g "success-after-detach" s!"{opName op} by F{a} succeeded after a detach had returned" else m
-      { m with succ := upd m.succ g (m.succ g + 1), retired := upd m.retired g true }
+  | .ret a op g ok v => monRet m a op g ok (some v)
+  | .retN a op g ok => monRet m a op g ok none
   | .fnRet f v => { m with retval := upd m.retval f (some v), finishing := f :: m.finishing }
   | .destroy a g =>
     let m := if a = g then m.flag g "destroy-by-self" s!"fiber_destroy ran on the fiber's own stack" else m
